@@ -84,9 +84,10 @@ func (r *rng) float() float64 { return float64(r.next()>>11) / (1 << 53) }
 func (r *rng) intn(n int) int { return int(r.next() % uint64(n)) }
 
 type editStep struct {
-	do   func()
-	desc string
-	last bool // last micro-step of an edit
+	do    func()
+	desc  string
+	last  bool // last micro-step of an edit
+	pause bool // the editor waits: only eligible while nothing else can run, and then lets simulated time pass
 }
 
 func expandEdits(edits []Edit) []editStep {
@@ -103,20 +104,20 @@ func expandEdits(edits []Edit) []editStep {
 			data := []byte(e.Data)
 			switch steps {
 			case 1:
-				out = append(out, editStep{func() { fs.PutFileRaw(e.Path, data); notify(e.Path, EvWrite) }, "write1 " + e.Path, true})
+				out = append(out, editStep{func() { fs.PutFileRaw(e.Path, data); notify(e.Path, EvWrite) }, "write1 " + e.Path, true, false})
 			case 2:
-				out = append(out, editStep{func() { fs.PutFileRaw(e.Path, nil); notify(e.Path, EvWrite) }, "trunc " + e.Path, false})
-				out = append(out, editStep{func() { fs.PutFileRaw(e.Path, data); notify(e.Path, EvWrite) }, "write " + e.Path, true})
+				out = append(out, editStep{func() { fs.PutFileRaw(e.Path, nil); notify(e.Path, EvWrite) }, "trunc " + e.Path, false, false})
+				out = append(out, editStep{func() { fs.PutFileRaw(e.Path, data); notify(e.Path, EvWrite) }, "write " + e.Path, true, false})
 			default:
 				half := len(data) / 2
-				out = append(out, editStep{func() { fs.PutFileRaw(e.Path, nil); notify(e.Path, EvWrite) }, "trunc " + e.Path, false})
-				out = append(out, editStep{func() { fs.PutFileRaw(e.Path, data[:half]); notify(e.Path, EvWrite) }, "write-half " + e.Path, false})
-				out = append(out, editStep{func() { fs.PutFileRaw(e.Path, data); notify(e.Path, EvWrite) }, "write-rest " + e.Path, true})
+				out = append(out, editStep{func() { fs.PutFileRaw(e.Path, nil); notify(e.Path, EvWrite) }, "trunc " + e.Path, false, false})
+				out = append(out, editStep{func() { fs.PutFileRaw(e.Path, data[:half]); notify(e.Path, EvWrite) }, "write-half " + e.Path, false, false})
+				out = append(out, editStep{func() { fs.PutFileRaw(e.Path, data); notify(e.Path, EvWrite) }, "write-rest " + e.Path, true, false})
 			}
 		case "atomic":
 			tmp := path.Dir(e.Path) + "/." + path.Base(e.Path) + ".swp~"
-			out = append(out, editStep{func() { fs.PutFileRaw(tmp, []byte(e.Data)); notify(tmp, EvCreate); notify(tmp, EvWrite) }, "tmpwrite " + tmp, false})
-			out = append(out, editStep{func() { RenameRaw(tmp, e.Path) }, "rename->" + e.Path, true})
+			out = append(out, editStep{func() { fs.PutFileRaw(tmp, []byte(e.Data)); notify(tmp, EvCreate); notify(tmp, EvWrite) }, "tmpwrite " + tmp, false, false})
+			out = append(out, editStep{func() { RenameRaw(tmp, e.Path) }, "rename->" + e.Path, true, false})
 		case "remove":
 			out = append(out, editStep{func() {
 				if p, n, er := fs.parentOf(e.Path); er == 0 {
@@ -126,11 +127,18 @@ func expandEdits(edits []Edit) []editStep {
 						detached(gone, p, EvRemove)
 					}
 				}
-			}, "remove " + e.Path, true})
+			}, "remove " + e.Path, true, false})
 		case "rename":
-			out = append(out, editStep{func() { RenameRaw(e.Path, e.To) }, "rename " + e.Path + "->" + e.To, true})
+			out = append(out, editStep{func() { RenameRaw(e.Path, e.To) }, "rename " + e.Path + "->" + e.To, true, false})
 		case "mkdir":
-			out = append(out, editStep{func() { fs.MkdirAllRaw(e.Path); notify(e.Path, EvCreate) }, "mkdir " + e.Path, true})
+			out = append(out, editStep{func() { fs.MkdirAllRaw(e.Path); notify(e.Path, EvCreate) }, "mkdir " + e.Path, true, false})
+		case "pause":
+			// the person at the editor waits until the tool has gone quiet: three waits of 20 ms, each possible only
+			// when no goroutine is runnable and no event is deliverable (so a regeneration started by a debounce
+			// timer that fires during one wait has to finish before the next)
+			for i := 0; i < 3; i++ {
+				out = append(out, editStep{func() { time.Sleep(20 * time.Millisecond) }, "pause", i == 2, true})
+			}
 		default:
 			panic("unknown edit kind " + e.Kind)
 		}
@@ -355,6 +363,9 @@ func Run(spec *Spec, mainFn func()) *Result {
 		gnames, gmap := snapshotEnabled()
 		edEnabled := nextEdit < len(steps)
 		evEnabled := len(PendingEvs) > 0 && evBlockedAt != lastProgress
+		if edEnabled && steps[nextEdit].pause && (len(gnames) > 0 || evEnabled) {
+			edEnabled = false
+		}
 		if mainDone && len(gnames) == 0 {
 			mu.Lock()
 			np := len(parked)
